@@ -59,7 +59,7 @@ def run_shard(shard, tier, seed, wd, res):
             items += [pp, qp]
         # the generic entry point takes any iterator over the pairs: slice, reference to Vec, filter, iterators with an
         # uninformative size_hint, chain, VecDeque, from_fn, skip_while+take
-        f = s.op("miller", V.lst(items), V.n(rng.randrange(9)))
+        f = s.op("miller", V.lst(items), V.n(rng.randrange(9) | (16 if rng.random() < 0.3 else 0)))     # +16: no two entries share an object
         s.op("final_exp", f)
 
     nlists = 8 if tier == "quick" else 16
@@ -164,7 +164,7 @@ def judge(ctx, rec, res):
         res.classes[(op, "slot-id" if ctx.recs[rec.srcs[0]].outs[0][1] else "slot-point", "src-id" if want else "src-point", ctx.build)] += 1
         return None if rec.outs[0][1] == want else "is_zero() == %s" % want
     if op == "miller":
-        res.classes[("miller", "iterator kind %d" % (rec.args[1][1] if len(rec.args) > 1 else 0), "n=%d" % min(len(rec.args[0][1]) // 2, 20), rec.status, ctx.build)] += 1
+        res.classes[("miller", "iterator kind %d" % ((rec.args[1][1] & 15) if len(rec.args) > 1 else 0), "n=%d" % min(len(rec.args[0][1]) // 2, 20), rec.status, ctx.build)] += 1
         if rec.status == "panic":
             res.evals += 1
             return "a Miller-loop value (no panic)"
